@@ -134,6 +134,7 @@ class Program:
         """source text; sets node.line (1-based) for every node that owns a line; records line (cline) and
         position (cpos, 1-based byte column) of every comment"""
         out = []
+        included = set()
         self.cline, self.cpos = {}, {}
 
         def emit(s):
@@ -169,7 +170,11 @@ class Program:
         def stmts(lst, ind):
             for s in lst:
                 if s.file is not None:
-                    continue                         # embedded from a managed snippet: not part of this file
+                    # embedded from a managed snippet: not part of this file; from an include module: the include statement
+                    if s.file.startswith("mod::") and s.file not in included:
+                        included.add(s.file)
+                        emit(ind + 'include "%s";' % s.file[5:])
+                    continue
                 comments(s.pre_lead + s.fixed_lead + s.lead, ind)
                 if s.kind == "simple":
                     if x(s, "kw"):
@@ -213,6 +218,10 @@ class Program:
             comments(b.infix, ind + "  ")
 
         for s in self.subs:
+            if s.kind == "decl":
+                comments(s.pre_lead + s.fixed_lead + s.lead, "")
+                s.line = compose([s.text + (" " if s.trail else ""), s.trail])
+                continue
             for k in s.walk():
                 if k.kind == "if":
                     prev = k.kids[0]
@@ -258,7 +267,8 @@ class Program:
             n.srcline = len(lines)
             for c in n.trail:
                 self.cline[id(c)] = -len(lines)
-        self.snippet_req = "".join(" scoped:%s:%s:%s" % (self.snippet_scope, f[len("snippet::"):], ("\n".join(ls) + "\n").encode().hex())
+        self.snippet_req = "".join((" mod:%s:%s" % (f[5:], ("\n".join(ls) + "\n").encode().hex())) if f.startswith("mod::") else
+                                   (" scoped:%s:%s:%s" % (self.snippet_scope, f[len("snippet::"):], ("\n".join(ls) + "\n").encode().hex()))
                                    for f, ls in files.items())
         return files
 
@@ -301,7 +311,8 @@ class Program:
         def block(b):
             return "(block %s (%s))" % (meta(b), " ".join(map(stmt, b.kids)))
 
-        return "(" + " ".join("(sub %s %s %s %s)" % (meta(s), rules(s, False), rules(s, True), block(s.kids[0]))
+        return "(" + " ".join(("(other %s %s %s)" % (meta(s), rules(s, False), rules(s, True))) if s.kind == "decl" else
+                              ("(sub %s %s %s %s)" % (meta(s), rules(s, False), rules(s, True), block(s.kids[0])))
                               for s in self.subs) + ")"
 
     def model_paths(self):
@@ -418,6 +429,13 @@ class Builder:
                 for t in subs[i + 1:]:
                     t.kids[0].kids.insert(0, Node("simple", "call %s;" % s.text))
                     break
+        # root declarations other than subroutines: unused ones (unused/declaration, emitted after the program), a broken one
+        for k in range(self.r.choice([0, 0, 1, 2])):
+            self.n += 1
+            text = self.r.choice(['acl a%d { "10.0.0.0"/8; }', 'acl a%d { "999.0.0.1"; }', 'table t%d { "k": "v" }',
+                                  'table t%d INTEGER { "k": "v" }', 'backend b%d { .host = "example.com"; .bogus = 1; }']) % self.n
+            subs.insert(self.r.randrange(len(subs) + 1), Node("decl", text))
+            self._c("decl")
         self._c("program")
         return Program(subs).number()
 
